@@ -358,7 +358,14 @@ func raceProgram(p program, idx int, cfgs []config, o raceOpts) bool {
 		// cache is cold, so the goroutines below are the first to reach them
 		rn := runner{}
 		if cf.Query {
-			rn.query = q
+			// a freshly parsed Query too: whatever compiling memoises in the AST is written by
+			// the racing goroutines first
+			q2, err := gojq.Parse(p.Src)
+			if err != nil {
+				res.Skipped["parse-error"]++
+				return false
+			}
+			rn.query = q2
 		} else {
 			c2, err := gojq.Compile(q)
 			if err != nil {
